@@ -1,4 +1,9 @@
-STREAMS = ["c02", "c02proc"]
+import os
+import core
+
+STREAMS = ["c02", "c02proc", "c01l3"]
+NEEDS_BINARY = True
+HARNESS_ARGS = ("-rdpgw", os.path.join(core.BUILD, "rdpgw"))
 RULE = ("real security.CheckPAACookie with real go-jose against a scriptable OpenID provider: (a) 26 token variants (each claim "
         "changed or missing, exp/nbf/iat around the leeway, other key, HS384/HS512/RS256/none, hand-built, JSON-serialised, "
         "nested) x 5 IdP conditions (valid, unknown, revoked, 500, connection dropped); (b) tokens minted by GeneratePAAToken "
@@ -14,7 +19,7 @@ ASSUMPTIONS = ["unforgeability of HMAC-SHA256 (Dolev-Yao: symbolic terms)",
 
 
 def nontrivial(c):
-    if c.kind == "process":
+    if c.kind in ("process", "process16", "wiring"):
         return True
     try:
         return bytes.fromhex(c.fields[3] if c.fields[3] != "-" else "").count(b".") == 2
